@@ -369,6 +369,29 @@ class PathAccessError(GlomError, AttributeError, KeyError, IndexError):
         self.path = path
         self.part_idx = part_idx
 
+    _also = {}  # class of the original error -> PathAccessError subclass that is one of those, too
+
+    @classmethod
+    def of(cls, exc, path, part_idx):
+        """the PathAccessError for *exc*, which stays catchable as what *exc* is
+        (a ValueError from a slice step, an OverflowError from arithmetic, ...)
+        beyond the three lookup errors every PathAccessError is"""
+        exc_type = type(exc)
+        if issubclass(cls, exc_type):
+            return cls(exc, path, part_idx)
+        try:
+            sub = cls._also[exc_type]
+        except KeyError:
+            try:
+                sub = type(cls.__name__, (cls, exc_type), {'__module__': cls.__module__})
+            except TypeError:  # (incompatible layouts, a class that cannot be subclassed)
+                sub = cls
+            cls._also[exc_type] = sub
+        try:
+            return sub(exc, path, part_idx)
+        except Exception:  # (the other base insists on its own constructor)
+            return cls(exc, path, part_idx)
+
     def get_message(self):
         # (an S-rooted Path cannot be re-wrapped in Path())
         path = self.path if isinstance(self.path, Path) else Path(self.path)
@@ -1638,20 +1661,20 @@ def _t_eval(target, _t, scope):
             try:
                 cur = getattr(cur, arg)
             except AttributeError as e:
-                pae = PathAccessError(e, Path(_t), i // 2)
+                pae = PathAccessError.of(e, Path(_t), i // 2)
         elif op == '[':
             try:
                 cur = cur[arg]
             except (LookupError, TypeError, ValueError) as e:
                 # (ValueError: e.g. a slice with step 0)
-                pae = PathAccessError(e, Path(_t), i // 2)
+                pae = PathAccessError.of(e, Path(_t), i // 2)
         elif op == 'P':
             # Path type stuff (fuzzy match)
             get = scope[TargetRegistry].get_handler('get', cur, path=t_path[2:i+2:2])
             try:
                 cur = get(cur, arg)
             except Exception as e:
-                pae = PathAccessError(e, Path(_t), i // 2)
+                pae = PathAccessError.of(e, Path(_t), i // 2)
         elif op in 'xX':
             nxt = []
             get_handler = scope[TargetRegistry].get_handler
@@ -1720,7 +1743,7 @@ def _t_eval(target, _t, scope):
             except (TypeError, ArithmeticError, ValueError, LookupError) as e:
                 # (OverflowError from ** or / on big numbers, ValueError and
                 # KeyError from % formatting, ...)
-                pae = PathAccessError(e, Path(_t), i // 2)
+                pae = PathAccessError.of(e, Path(_t), i // 2)
         if pae:
             raise pae
         i += 2
